@@ -47,11 +47,20 @@ pub enum Pipe {
   /// observe_on_threads / delay_threads / delay_subscription with the pool worker's tick as a thread operation
   ObserveOnTick,
   DelayTick,
+  /// last(): the item and the completion both travel inside the source's terminal
+  Last,
 }
 
 pub const MOVE_PIPES: &[Pipe] = &[Pipe::ObserveOnTick, Pipe::DelayTick];
 
 pub const RATE_PIPES: &[Pipe] = &[Pipe::BufferTime, Pipe::BufferCountTime, Pipe::SampleTick, Pipe::ThrottleAll, Pipe::ThrottleLead, Pipe::ThrottleTailTick, Pipe::DebounceTick];
+
+thread_local! {
+  /// is_closed() of the handle the last `build` returned (None once it has been consumed by unsubscribe())
+  static CLOSED_Q: RefCell<Option<Rc<dyn Fn() -> Option<bool>>>> = RefCell::new(None);
+}
+
+pub const C17_PIPES: &[Pipe] = &[Pipe::Last, Pipe::Merge, Pipe::TakeUntil, Pipe::MergeAll, Pipe::ObserveOn, Pipe::Delay, Pipe::Debounce, Pipe::ThrottleTail, Pipe::Finalize, Pipe::ConcatAll];
 
 pub const C10_PIPES: &[Pipe] = &[Pipe::Subject, Pipe::Merge, Pipe::Zip, Pipe::CombineLatest, Pipe::TakeUntil, Pipe::MergeAll, Pipe::ConcatAll, Pipe::Share, Pipe::ObserveOn, Pipe::Delay];
 
@@ -95,8 +104,16 @@ pub fn build(p: Pipe) -> Rig {
   });
   macro_rules! keep {
     ($u:expr) => {{
-      let u = $u;
-      *unsub.borrow_mut() = Some(Box::new(move || u.unsubscribe()));
+      // the handle stays where both unsubscribe() and an is_closed() sampler (same logical thread) can reach it
+      let cell = Rc::new(RefCell::new(Some($u)));
+      let c2 = cell.clone();
+      CLOSED_Q.with(|q| *q.borrow_mut() = Some(Rc::new(move || c2.try_borrow().ok().and_then(|c| c.as_ref().map(|u| u.is_closed())))));
+      *unsub.borrow_mut() = Some(Box::new(move || {
+        let u = cell.borrow_mut().take();
+        if let Some(u) = u {
+          u.unsubscribe()
+        }
+      }));
     }};
   }
   match p {
@@ -219,6 +236,10 @@ pub fn build(p: Pipe) -> Rig {
     Pipe::Delay => {
       keep!(cat::hot_tagged_t(0).delay_threads(world::units(1), world::any_sched()).actual_subscribe(probe));
       Rig { feed: feed_tags(vec![0]), ninputs: 1, unsub, subscribe: None, probes: vec![probe], drain: sched_drain, peek: None, extra: vec![] }
+    }
+    Pipe::Last => {
+      keep!(cat::hot_tagged_t(0).last().actual_subscribe(probe));
+      Rig { feed: feed_tags(vec![0]), ninputs: 1, unsub, subscribe: None, probes: vec![probe], drain: nodrain, peek: None, extra: vec![] }
     }
     Pipe::Debounce => {
       keep!(cat::hot_tagged_t(0).debounce(world::units(1), world::any_sched()).actual_subscribe(probe));
@@ -448,6 +469,8 @@ enum TOp {
   Unsub,
   Subscribe,
   Extra(usize),
+  /// is_closed() on the returned handle; once it answered true nothing may be delivered any more (C17)
+  IsClosed,
 }
 
 fn draw_op(rig: &Rig, allow_unsub: bool) -> TOp {
@@ -481,6 +504,7 @@ fn show_op(o: &TOp) -> String {
     TOp::Unsub => "unsubscribe()".to_string(),
     TOp::Subscribe => "subscribe(new)".to_string(),
     TOp::Extra(i) => format!("extra#{}", i),
+    TOp::IsClosed => "is_closed()".to_string(),
   }
 }
 
@@ -490,7 +514,18 @@ fn make_closure(rig: &Rig, op: TOp, late: Rc<RefCell<Vec<Probe>>>, key_after_uns
   let subscribe = rig.subscribe.clone();
   let first = rig.probes[0];
   let extras: Vec<Rc<dyn Fn()>> = rig.extra.iter().map(|x| x.1.clone()).collect();
+  let closed_q = CLOSED_Q.with(|q| q.borrow().clone());
+  let all_probes = rig.probes.clone();
   Box::new(move || match op {
+    TOp::IsClosed => {
+      if let Some(q) = &closed_q {
+        if q() == Some(true) {
+          e::note("  is_closed() -> true".to_string());
+          let _ = &all_probes;
+          first.forbid("delivery-after-is_closed/threads");
+        }
+      }
+    }
     TOp::Extra(i) => (extras[i])(),
     TOp::Feed(i, ev) => feed(i, &ev),
     TOp::Unsub => {
@@ -516,6 +551,10 @@ fn make_closure(rig: &Rig, op: TOp, late: Rc<RefCell<Vec<Probe>>>, key_after_uns
 /// Two logical threads, `nops` operations each, nested pre-emption at every lock
 /// acquisition, inside callbacks and at yield points.
 fn c10_preempt(pipes: &[Pipe], nops: usize, max_preempt: u32) {
+  c10_preempt_x(pipes, nops, max_preempt, false)
+}
+
+fn c10_preempt_x(pipes: &[Pipe], nops: usize, max_preempt: u32, sample_closed: bool) {
   let p = pipes[e::choose(pipes.len() as u32) as usize];
   let rig = build(p);
   e::cfg_begin(&format!("{:?}", p));
@@ -529,16 +568,21 @@ fn c10_preempt(pipes: &[Pipe], nops: usize, max_preempt: u32) {
       // the pool has one worker: only T0 ticks the clock and polls (two threads ticking would make "advance, then
       // poll" non-atomic in a way no serial order of whole ticks reproduces: a delayed poll is not a defect)
       let one_worker = RATE_PIPES.contains(&p) || MOVE_PIPES.contains(&p);
-      let op = draw_op_x(&rig, t == 1, !(one_worker && t == 1));
+      // T1 may ask the handle is_closed() instead of drawing another operation
+      let op = if sample_closed && t == 1 && e::choose(3) == 0 { TOp::IsClosed } else { draw_op_x(&rig, t == 1, !(one_worker && t == 1)) };
       desc.push(format!("T{}:{}", t, show_op(&op)));
       script[t].push(op.clone());
       world::thread_push(t, make_closure(&rig, op, late.clone(), key));
     }
   }
   e::note(format!("{:?}_threads ; {}", p, desc.join(" | ")));
+  let with_query = script.iter().flatten().any(|o| matches!(o, TOp::IsClosed));
+  if with_query {
+    world::set_deadlock_ctx(&format!("/{:?}+is_closed", p));
+  }
   world::run_threads();
   if let Some((a, b)) = world::lock_order_cycle() {
-    e::fail(&format!("lock-order-cycle/{:?}", p), || format!("one thread acquires lock #{} while holding #{}, another acquires #{} while holding #{}: they can deadlock", b, a, a, b));
+    e::fail(&format!("lock-order-cycle/{:?}{}", p, if with_query { "+is_closed" } else { "" }), || format!("one thread acquires lock #{} while holding #{}, another acquires #{} while holding #{}: they can deadlock", b, a, a, b));
   }
   world::hooks_disable();
   world::w(|w| w.threads.enabled = false);
@@ -720,11 +764,12 @@ pub fn harnesses() -> Vec<HarnessDef> {
   };
   add("c10_lockset_order", vec!["C10"], "Eraser lockset on every subscriber callback + lock-order cycle detection between two logical threads' scripts (sufficient conditions that cover all interleavings of the scripts, not only explored ones)", |t| format!("9 thread-safe pipelines; 2 threads x {} operations (next/complete/error on every input, unsubscribe, subscribe)", if t { 3 } else { 2 }), Box::new(|t| c10_lockset_order(if t { 3 } else { 2 })), 2_000_000, 40_000_000);
   add("c10_preempt", vec!["C10"], "two logical threads with nested pre-emption at every MutArc lock acquisition, inside callbacks and at yield points: overlapping callbacks, deadlock (lock cycle), self-deadlock, panic, common delivery order", |t| format!("9 thread-safe pipelines; 2 threads x {} operations; <= {} pre-emptions, nesting depth 2", if t { 2 } else { 2 }, if t { 3 } else { 2 }), Box::new(|t| c10_preempt(C10_PIPES, 2, if t { 3 } else { 2 })), 3_000_000, 40_000_000);
-  add("c02_threads", vec!["C02"], "an unsubscribing logical thread racing an emitting one at every lock acquisition: no callback may start after unsubscribe() returned (scheduled work is drained afterwards)", |_| "9 thread-safe pipelines + finalize_threads, debounce, throttle(tailing); 2 threads x 2 operations".to_string(), Box::new(|_| c10_preempt(&[Pipe::Subject, Pipe::Merge, Pipe::Zip, Pipe::CombineLatest, Pipe::TakeUntil, Pipe::MergeAll, Pipe::Share, Pipe::ObserveOn, Pipe::Delay, Pipe::Finalize, Pipe::Debounce, Pipe::ThrottleTail, Pipe::ConcatAll, Pipe::ConcatQueued], 2, 3)), 3_000_000, 40_000_000);
+  add("c02_threads", vec!["C02", "C17"], "an unsubscribing logical thread racing an emitting one at every lock acquisition: no callback may start after unsubscribe() returned (scheduled work is drained afterwards)", |_| "9 thread-safe pipelines + finalize_threads, debounce, throttle(tailing); 2 threads x 2 operations".to_string(), Box::new(|_| c10_preempt(&[Pipe::Subject, Pipe::Merge, Pipe::Zip, Pipe::CombineLatest, Pipe::TakeUntil, Pipe::MergeAll, Pipe::Share, Pipe::ObserveOn, Pipe::Delay, Pipe::Finalize, Pipe::Debounce, Pipe::ThrottleTail, Pipe::ConcatAll, Pipe::ConcatQueued], 2, 3)), 3_000_000, 40_000_000);
   add("c05_threads_iter", vec!["C05", "C16"], "flat_map_threads over a hot inner and a synchronous from_iter inner: another thread terminates the output while the iterator inner is emitting; it must stop pulling (no blocking on an unbounded iterator)", |_| "2 threads x 2 operations, <= 3 pre-emptions".to_string(), Box::new(|_| c10_preempt(&[Pipe::FlatMapIter], 2, 3)), 3_000_000, 40_000_000);
-  add("c02_threads_sched", vec!["C02", "C19"], "a pool worker thread polling scheduled tasks (subscribe_on / delay_subscription over a synchronous source, observe_on_threads, delay_threads, interval) racing an unsubscribing thread at every lock acquisition and inside callbacks", |_| "5 pipelines; worker: 3 executor steps; 1 unsubscribe; <= 3 pre-emptions".to_string(), Box::new(|_| c02_threads_sched()), 3_000_000, 40_000_000);
+  add("c02_threads_sched", vec!["C02", "C19", "C17"], "a pool worker thread polling scheduled tasks (subscribe_on / delay_subscription over a synchronous source, observe_on_threads, delay_threads, interval) racing an unsubscribing thread at every lock acquisition and inside callbacks", |_| "5 pipelines; worker: 3 executor steps; 1 unsubscribe; <= 3 pre-emptions".to_string(), Box::new(|_| c02_threads_sched()), 3_000_000, 40_000_000);
   add("c09_threads_preempt", vec!["C09", "C10"], "buffer_with_time, buffer_with_count_and_time, sample(interval), throttle(all), debounce on a thread-safe source: the pool worker's timer callbacks race the source thread at every lock acquisition and inside callbacks; monitors + serialisability (no item or final buffer may be lost while a tick is being delivered)", |t| format!("7 rate-limiting pipelines; 2 threads x {} operations from next/complete/error/unsubscribe/clock tick + poll; <= 3 pre-emptions", if t { 3 } else { 2 }), Box::new(|t| c10_preempt(RATE_PIPES, if t { 3 } else { 2 }, 3)), 3_000_000, 40_000_000);
   add("c07_threads_preempt", vec!["C07", "C10"], "observe_on_threads / delay_threads with the pool worker (FIFO) polling on one logical thread while the source emits on the other: monitors + serialisability (no item or terminal lost, duplicated or reordered by the race)", |t| format!("2 pipelines; 2 threads x {} operations from next/complete/error/unsubscribe/clock tick + poll; <= 3 pre-emptions", if t { 3 } else { 2 }), Box::new(|t| c10_preempt(MOVE_PIPES, if t { 3 } else { 2 }, 3)), 3_000_000, 40_000_000);
+  add("c17_threads", vec!["C17", "C10"], "is_closed() asked on the returned handle by one logical thread while the other is emitting or terminating (and around unsubscribe()): once it answered true, no notification may start, whatever is still in flight", |_| "10 thread-safe pipelines incl. last(); 2 threads x 2 operations; <= 3 pre-emptions".to_string(), Box::new(|_| c10_preempt_x(C17_PIPES, 2, 3, true)), 3_000_000, 40_000_000);
   add("c04_threads_preempt", vec!["C04", "C10"], "the two-input _threads combinators with their two inputs driven by two logical threads: monitors + serialisability (a terminal of one input must not be lost or duplicated while the other input is delivering)", |_| "merge, zip, combine_latest, with_latest_from, take_until, skip_until, sample _threads; 2 threads x 2 operations; <= 3 pre-emptions".to_string(), Box::new(|_| c10_preempt(&[Pipe::Merge, Pipe::Zip, Pipe::CombineLatest, Pipe::WithLatestFrom, Pipe::TakeUntil, Pipe::SkipUntil, Pipe::Sample], 2, 3)), 3_000_000, 40_000_000);
   add("c06_threads", vec!["C06"], "SubjectThreads under two logical threads: every subscriber's log stays well-formed and all subscribers agree on the order", |t| format!("2 threads x {} operations", if t { 3 } else { 2 }), Box::new(|t| c10_preempt(&[Pipe::Subject], if t { 3 } else { 2 }, 3)), 3_000_000, 40_000_000);
   add("c12_threads", vec!["C12"], "BehaviorSubject over SubjectThreads: two producers and a late subscriber; peek() = last value in the common delivery order", |_| "2 threads x 2 operations".to_string(), Box::new(|_| c10_preempt(&[Pipe::Behavior], 2, 3)), 3_000_000, 40_000_000);
